@@ -3,6 +3,8 @@ import KrakenModel.Model.Tiered
 import KrakenModel.Proof.C09Ghost
 import KrakenModel.Proof.C09Dead
 import KrakenModel.Proof.C09Main
+import KrakenModel.Proof.C09File
+import KrakenModel.Proof.C09Split
 /-
   C09  The tiered store never loses or corrupts a completed blob or metadata update.
 
@@ -10,7 +12,12 @@ import KrakenModel.Proof.C09Main
   the flush worker as a small-step program; a schedule is a `List Act` (client operations and single
   worker steps of any worker, in any order).  `gsys mc dc nw` adds the ghost history variables of
   `Proof/C09Ghost.lean` (which keys are live, the bytes at `MarkComplete`, the last metadata update);
-  `Safe` is the property.  The model is the code after the two `fix:` commits of known/C09.json.
+  `Safe` is the property.  The model is the code after the three `fix:` commits of known/C09.json.
+  The copy of a flush proceeds in chunks whose length is a choice of the schedule (`work i c`: at most
+  `c` bytes, 0 = everything that is left), so every copy-buffer size and every short read is covered.
+  `tiered.File` handles: `TFile`, `tfRead`, `tfContent` (Model/Tiered.lean) and
+  `handle_reads_completed_bytes`.  Client operations are single steps here; `client_segments_compose`
+  relates them to the segments the code executes between its store calls.
 -/
 namespace KrakenModel.Spec.C09
 open KrakenModel KrakenModel.BlobStore KrakenModel.Tiered
@@ -105,6 +112,95 @@ theorem tiered_safe_partial_prefix (mc dc nw : Nat) (h1 : mc < U64) (h2 : dc < U
     | cons a l ih => intro l' s h; exact ⟨h.1, ih l' _ h.2⟩
   exact this sched more _ hclass
 
+/-! ### `tiered.File`: a handle held across the flush and the eviction from memory -/
+
+/-- the state component of a run that continues another one -/
+theorem run_t_append (mc dc nw : Nat) (sched more : List Act) :
+    ((gsys mc dc nw).run (sched ++ more)).t = Tiered.trun ((gsys mc dc nw).run sched).t more := by
+  rw [Sys.run_append]
+  have : ∀ (l : List Act) (s : GState), ((gsys mc dc nw).runFrom s l).t = Tiered.trun s.t l := by
+    intro l
+    induction l with
+    | nil => intro s; rfl
+    | cons a l ih =>
+      intro s
+      show ((gsys mc dc nw).runFrom ((gsys mc dc nw).step s a) l).t = Tiered.trun (Tiered.tstep s.t a) l
+      rw [ih, show ((gsys mc dc nw).step s a).t = Tiered.tstep s.t a from gstep_t s a]
+  exact this more _
+
+/-- **A handle keeps delivering the completed bytes** — "no matter how flushing interleaves with
+reads".  A `tiered.File` is opened from memory at some point of a schedule of the class (`sched`; the
+blob need not be complete yet); the schedule goes on (`more`: worker steps — the whole flush, in
+chunks of any length —, other clients, memory pressure, the eviction of the blob from memory, anything
+but a `Create` of the same key, which `Delete` must precede).  Whenever the blob is then a completed
+blob that has not been evicted from disk, what the handle delivers — from memory while its
+incarnation is there, otherwise after the switch-over from the disk copy opened by key — is exactly
+the completed bytes, at whatever offset the handle stands. -/
+theorem handle_reads_completed_bytes (mc dc nw : Nat) (h1 : mc < U64) (h2 : dc < U64) (sched more : List Act)
+    (hclass : (gsys mc dc nw).WFHist pre (gsys mc dc nw).init (sched ++ more))
+    (k : Key) (m : Blob) (hopen : ((gsys mc dc nw).run sched).t.mem.blobs.get k = some m)
+    (hnc : ∀ a ∈ more, ∀ n d, a ≠ .client (.create k n d))
+    (B : Bytes) (hdn : ((gsys mc dc nw).run (sched ++ more)).g.done k = some B)
+    (hx : k ∉ ((gsys mc dc nw).run (sched ++ more)).t.diskEvicted) (off : Nat) :
+    tfContent ((gsys mc dc nw).run (sched ++ more)).t { key := k, mem := some m.inc, moff := off } = some B := by
+  have hi := inv2_run mc dc nw h1 h2 (sched ++ more) hclass
+  apply content_of_current hi hdn hx
+  rw [run_t_append]
+  apply current_run more _ _ hnc
+  intro m' hm'
+  rw [hopen] at hm'; injection hm' with e; rw [e]
+
+/-- a handle opened from disk (the blob was not in memory any more) reads the disk copy: for a
+completed blob that has not been evicted from disk these are the completed bytes -/
+theorem disk_handle_reads_completed_bytes (mc dc nw : Nat) (h1 : mc < U64) (h2 : dc < U64) (sched : List Act)
+    (hclass : (gsys mc dc nw).WFHist pre (gsys mc dc nw).init sched) (k : Key) (B : Bytes)
+    (hdn : ((gsys mc dc nw).run sched).g.done k = some B) (hx : k ∉ ((gsys mc dc nw).run sched).t.diskEvicted)
+    (hm : ((gsys mc dc nw).run sched).t.mem.blobs.get k = none) (sc : Scope) (hsc : sc ≠ .incomplete) :
+    ∃ f t', tOpenFile ((gsys mc dc nw).run sched).t k sc = (t', some f, .ok) ∧ tfContent t' f = some B := by
+  have hi := inv2_run mc dc nw h1 h2 sched hclass
+  generalize (gsys mc dc nw).run sched = s at hi hdn hx hm
+  obtain ⟨d, hD, hc, hdat, _⟩ := (hi.key k).done_d B hdn hx (.inl hm)
+  have hin : inScope d sc = true := by cases sc <;> simp_all [inScope]
+  refine ⟨{ key := k, sw := .disk d.inc 0 }, { s.t with disk := (openB s.t.disk k sc).1 }, ?_, ?_⟩
+  · simp only [tOpenFile, openB_none hm, openB_eq hD hin]
+  · simp only [tfContent, diskData]
+    have : hBlob (openB s.t.disk k sc).1 { key := k, inc := d.inc } = some d := by
+      apply hBlob_of_get _ rfl
+      rw [openB_blobs]; exact hD
+    rw [this]; simp [hdat]
+
+/-! ### client operations taken apart -/
+
+/-- The client operations of `tiered.store` run under the store mutex, which the flush worker never
+takes: in the code worker steps may fall between the store calls of one operation.  The theorems above
+treat a client operation as one step; `cseg` is the same operation cut at the points between its store
+calls, and running the segments back to back **is** the atomic operation.  (The correspondence harness
+runs worker steps between the segments on the real code and compares with `cseg`; the invariant proof
+does not cover those schedules.) -/
+theorem client_segments_compose (t : TState) (o : COp) : crun t o 0 3 = capply t o := crun_eq_capply t o
+
+/-! ### a metadata suffix without a registered type -/
+
+/-- the schedule on which the unrepaired flush worker crashed: `DeleteMetadata` (which takes any string)
+names a suffix that no metadata type is registered for (1000 = `u0` of the harness) -/
+def panicWitness : List Act :=
+  [.client (.create 0 1 [1]), .client (.markComplete 0), .client (.delMd 0 .any 1000),
+   .work 0, .work 0, .work 0, .work 0, .work 0, .work 0, .work 0, .work 0, .work 0]
+
+/-- Before the repair the worker reached `mem.GetMetadata(key, nil)` there (a nil dereference on the
+worker goroutine: the process dies) … -/
+theorem legacy_worker_panics_on_unregistered_suffix :
+    (((Tiered.trun (Tiered.tinit 4 64 1) panicWitness).workers[0]?).map
+      (fun w => legacyWorkerPanics (fun sfx => decide (sfx < 1000)) w 0)) = some true := by decide
+
+/-- … and the repaired worker skips the suffix, which is what the model does for any suffix that was
+never set: it reads "absent" and deletes an absent sidecar on disk — the blob keeps its bytes and its
+metadata, the schedule is in the class and `Safe` holds at its end. -/
+theorem unregistered_suffix_is_harmless :
+    (gsys 4 64 1).WFHist pre (gsys 4 64 1).init (panicWitness ++ [.work 0, .work 0, .work 0, .work 0]) ∧
+    openRead ((gsys 4 64 1).run (panicWitness ++ [.work 0, .work 0, .work 0, .work 0])).t 0 .complete = some [1] ∧
+    fget ((gsys 4 64 1).run (panicWitness ++ [.work 0, .work 0, .work 0, .work 0])).t.fmap 0 = none := by decide
+
 /-! non-vacuity: a schedule of the class with a flush, a metadata update racing the flush, memory
 pressure and a delete; the property's premises are met and its conclusion is checked by evaluation -/
 
@@ -130,5 +226,34 @@ example : ((gsys 4 64 1).run witness).t.mem.blobs.get 0 = none := by decide
 example : (((gsys 4 64 1).run witness).t.disk.blobs.get 0).map (·.complete) = some false := by decide
 -- the witness is in the excluded schedule class: the re-creation happens while the worker holds key 0
 example : ¬ (gsys 4 64 1).WFHist pre (gsys 4 64 1).init witness := by decide
+
+/-! non-vacuity of the handle theorem and of the chunked copy: a 3-byte blob is flushed in 1-byte
+chunks while a handle opened from memory is held; memory pressure then evicts the blob and the handle
+switches over to the disk copy -/
+
+def chunked : List Act :=
+  [.client (.create 0 3 [0xa1, 0xa2, 0xa3]), .client (.markComplete 0)]
+
+def chunkedMore : List Act :=
+  [.work 0, .work 0, .work 0, .work 0, .work 0,          -- notify, nextToFlush, memOpen, disk.Create, start of io.Copy
+   .work 0 1, .work 0 1]                                 -- two 1-byte Read/Write rounds
+
+def chunkedRest : List Act :=
+  [.work 0 1, .work 0 1,                                 -- the third byte, io.EOF
+   .work 0, .work 0, .work 0, .work 0, .work 0, .work 0, -- MarkComplete, metadata loop, unban, back to idle
+   .client (.create 9 4 [])]                             -- memory pressure: key 0 leaves memory
+
+example : (gsys 4 64 1).WFHist pre (gsys 4 64 1).init (chunked ++ (chunkedMore ++ chunkedRest)) := by decide
+-- in the middle of the copy the disk file holds the first two bytes and is incomplete
+example : (((gsys 4 64 1).run (chunked ++ chunkedMore)).t.disk.blobs.get 0).map (fun b => (b.data, b.complete)) =
+    some ([0xa1, 0xa2], false) := by decide
+-- the handle was opened from memory (incarnation 0) right after MarkComplete …
+example : (((gsys 4 64 1).run chunked).t.mem.blobs.get 0).map (·.inc) = some 0 := by decide
+-- … at the end the blob is gone from memory and the handle delivers the bytes from the disk copy
+example : ((gsys 4 64 1).run (chunked ++ (chunkedMore ++ chunkedRest))).t.mem.blobs.get 0 = none := by decide
+example : tfContent ((gsys 4 64 1).run (chunked ++ (chunkedMore ++ chunkedRest))).t { key := 0, mem := some 0, moff := 1 } =
+    some [0xa1, 0xa2, 0xa3] := by decide
+example : (tfRead ((gsys 4 64 1).run (chunked ++ (chunkedMore ++ chunkedRest))).t { key := 0, mem := some 0, moff := 1 } 2).2.2 =
+    .data [0xa2, 0xa3] := by decide
 
 end KrakenModel.Spec.C09
